@@ -53,18 +53,33 @@ def main():
     last_pids = []
 
     def one_call(k):
-        nonlocal last_pids
+        nonlocal last_pids, p
         tag = f"k{k}"
+        if fault["call"] == k and fault["instant"] == "next_call_startup_other_n_jobs":
+            # this call (and the following ones) asks for another number of workers: loky resizes the executor or, when
+            # the per-worker thread limits change with n_jobs, shuts it down gracefully and builds a new one
+            p = Parallel(n_jobs=fault["J2"], backend="loky", batch_size=cfg.get("batch_size", 1), pre_dispatch=cfg.get("pre_dispatch", "2*n_jobs"))
         spec = None
         victims = set()
         if fault["call"] == k and fault["instant"] not in ("idle_between_calls", "next_call_startup"):
             victims = set(fault["victim_tasks"])
             spec = dict(instant=fault["instant"], how=fault["how"], parent=parent)
         killer = None
-        if fault["call"] == k and fault["instant"] == "next_call_startup" and last_pids:
+        if fault["call"] == k and fault["instant"] in ("next_call_startup", "next_call_startup_other_n_jobs") and last_pids:
             vict = last_pids[:fault["victims"]]
 
+            from joblib.externals.loky import reusable_executor as _re
+            ex = _re._executor
+            old_max = getattr(ex, "_max_workers", None)
+            watch = fault["instant"] == "next_call_startup_other_n_jobs" and ex is not None
+
             def kill_later():
+                if watch:
+                    # scheduling only: wait (busy) until loky has started to shut the executor down or to resize it
+                    end = time.monotonic() + 5
+                    while time.monotonic() < end and not (ex._flags.shutdown or ex._max_workers != old_max):
+                        time.sleep(0)
+                    note(ev="executor_change_seen", shutdown=bool(ex._flags.shutdown), max_workers=ex._max_workers)
                 time.sleep(fault.get("delay", 0.01))
                 for pid in vict:
                     try:
@@ -99,8 +114,51 @@ def main():
         note(ev="call_end", call=k, dur=rec["dur"])
         calls.append(rec)
 
+    def overlapped(k):
+        """call A (generator) is running when call B needs another executor (other arguments: the running one is shut down
+        gracefully and replaced) or another size (resized once its jobs are done); the worker dies while B waits"""
+        nonlocal last_pids
+        tag = f"k{k}"
+        victims = set(fault["victim_tasks"])
+        spec = dict(instant="mid_task_slow", how=fault["how"], parent=parent, after=0.5 + fault.get("delay", 0.0))
+        tasks = [delayed(c10_tasks.task)(i, tag, spec if i in victims else None, 0.1) for i in range(N)]
+        note(ev="call_start", call=k, sub="A")
+        t0 = time.monotonic()
+        recA = dict(call=k, sub="A")
+        # everything is dispatched up front: a completion callback of A that submitted more work while B holds loky's
+        # executor lock would block for reasons that have nothing to do with the worker's death
+        gen = Parallel(n_jobs=J, backend="loky", return_as="generator", pre_dispatch="all")(tasks)
+        time.sleep(0.15)
+        recB = dict(call=k, sub="B")
+        tb = time.monotonic()
+        kwB = dict(n_jobs=J, idle_worker_timeout=123) if fault["instant"] == "executor_replacement" else dict(n_jobs=J + 1 if J < 4 else J - 1)
+        try:
+            out = Parallel(backend="loky", **kwB)(delayed(c10_tasks.task)(i, tag + "B", None, 0.01) for i in range(6))
+            recB["out_ok"] = [tuple(r[:2]) for r in out] == [(tag + "B", i) for i in range(6)]
+            recB["pids"] = sorted({r[2] for r in out})
+            last_pids = recB["pids"]
+        except BaseException as e:  # noqa
+            recB.update(exc_type=type(e).__name__, exc_is_broken_pool=isinstance(e, BrokenProcessPool),
+                        exc_is_terminated_worker=isinstance(e, TerminatedWorkerError), exc_msg=str(e)[:300])
+        recB["dur"] = time.monotonic() - tb
+        note(ev="sub_end", call=k, sub="B", dur=recB["dur"])
+        try:
+            out = list(gen)
+            recA["out_ok"] = [tuple(r[:2]) for r in out] == [(tag, i) for i in range(N)]
+            recA["pids"] = sorted({r[2] for r in out})
+        except BaseException as e:  # noqa
+            recA.update(exc_type=type(e).__name__, exc_is_broken_pool=isinstance(e, BrokenProcessPool),
+                        exc_is_terminated_worker=isinstance(e, TerminatedWorkerError), exc_msg=str(e)[:300])
+        recA["dur"] = time.monotonic() - t0
+        note(ev="call_end", call=k, dur=recA["dur"])
+        calls.append(recA)
+        calls.append(recB)
+
     def history():
         for k in range(cfg["ncalls"]):
+            if fault["call"] == k and fault["instant"] in ("executor_replacement", "executor_resize"):
+                overlapped(k)
+                continue
             if fault["call"] == k and fault["instant"] == "idle_between_calls" and last_pids:
                 vict = last_pids[:fault["victims"]]
                 for pid in vict:
